@@ -313,7 +313,9 @@ def run(ctx):
     swapped = {}
     if nrec:
         nchunks = (len(orig) - 4096) // 65536
-        pairs = [(a, b) for a in range(nchunks) for b in range(a + 1, nchunks)]
+        live = [k for k in range(nchunks) if orig[4096 + 65536 * k: 4104 + 65536 * k] == b"ElfChnk\x00"
+                and orig[4096 + 65536 * k + 512: 4096 + 65536 * k + 516] == b"\x2a\x2a\x00\x00"]
+        pairs = [(a, b) for a in live for b in live if a < b]
         rng.shuffle(pairs)
         for (a, b) in pairs[:1 if quick else 6]:
             sw = swap_chunks(orig, a, b)
